@@ -344,8 +344,8 @@ prop('C17', level='other', units=['bycycle.cyclepoints.phase._merge_phases', 'by
      trusted=[EXTERNAL['interp']],
      assumptions=['np.interp (assumed library contract, see trusted base); real arithmetic for the interpolated values; the proved '
                   'cases take alternating extrema at least two samples apart, all inside the signal (the property\'s quantifier)'],
-     explanation='Proved for extrema_interpolated_phase, for every signal length, without midpoints (rises = decays = None) and with '
-                 'both kinds of midpoints (one per flank, anywhere in its closed flank - the postcondition of find_zerox - so a '
+     explanation='Proved for extrema_interpolated_phase, for every signal length, without midpoints (rises = decays = None), with '
+                 'both kinds of midpoints and with either kind alone (one per flank, anywhere in its closed flank - the postcondition of find_zerox - so a '
                  'midpoint may sit on an extremum), for every alternating peak / trough placement with gaps >= 2 (either kind '
                  'first, equal counts or one more of the first kind): the result has one value per sample, is exactly 0 at every '
                  'peak and +-pi at every trough, -pi/2 at every rise and +pi/2 at every decay midpoint that does not sit on one of '
@@ -365,7 +365,7 @@ prop('C17', level='other', units=['bycycle.cyclepoints.phase._merge_phases', 'by
                  'up to and including the sample the last non-zero step leads to, is NaN before and after, that first step rises, the '
                  'step into the last unmasked sample is non-zero and all later steps are zero; no StopIteration (explicit witnesses); '
                  'slice bounds in range (the negative computed slice start of the pinned tree fails these obligations). '
-                 'Bounded only: calls with exactly one kind of midpoint, and extrema closer than two samples (outside the property). The '
+                 'Bounded only: extrema closer than two samples (outside the property). The '
                  'bounded job (every alternating placement with gaps >= 2 on arrays up to length 9 (12) with every midpoint '
                  'placement, plus corpus cyclepoints at several boundaries) also evaluates the proved contract text on every real call.')
 
